@@ -5,6 +5,35 @@
 From Pyro Require Import Model.Base Model.Varint Model.Tree Model.Cappedarr Model.Dict Model.TreeCodec
   Proofs.DictProofs Proofs.TreeCodecProofs.
 
+(* cappedarr_topN, sequence part: after pushing ANY sequence of values (accepted or refused) into CappedArray(cap)
+   its window is exactly the cap largest pushed values in ascending order (isort vs is the sorted permutation of
+   vs, topn takes its last cap elements), so MinValue is the cap-th largest value once cap values were pushed *)
+Theorem cappedarr_topN : forall cap vs, (1 <= cap)%nat ->
+  ca_vals (push_all vs (ca_new cap)) = topn cap (isort vs) /\
+  Sorted.StronglySorted N.le (isort vs) /\ Permutation.Permutation (isort vs) vs.
+Proof. exact cappedarr_window. Qed.
+Print Assumptions cappedarr_topN.
+
+(* cappedarr_topN, tree part: whenever minValue uses the array (the pruned walk visited more than cap nodes) the
+   threshold is the cap-th largest node total of the WHOLE tree — fewer than cap totals are greater, at least cap
+   are greater or equal — although the walk never pushes the descendants of refused nodes (children <= parent) *)
+Theorem cappedarr_topN_tree : forall cap t, (1 <= cap)%nat -> t_subb t = true ->
+  let st := mv_visit t (ca_new cap, 0%nat) in
+  (cap < snd st)%nat ->
+  let m := ca_min (fst st) in
+  t_minval cap t = m /\
+  (count_gt m (all_totals t) < cap)%nat /\ (cap <= count_ge m (all_totals t))%nat.
+Proof. exact cappedarr_tree_topN. Qed.
+Print Assumptions cappedarr_topN_tree.
+
+Example cappedarr_topN_nonvacuous :
+  let t := TNode [] 0 9 [TNode [] 0 3 [TNode [97] 3 3 []]; TNode [97] 0 3 [TNode [0; 255] 0 3 [TNode [98] 3 3 []]];
+                         TNode [98] 3 3 []; TNode [99] 0 0 [TNode [100] 0 0 []]] in
+  t_subb t = true /\ snd (mv_visit t (ca_new 3, 0%nat)) = 6%nat /\ t_minval 3 t = 3 /\
+  count_gt 3 (all_totals t) = 1%nat /\ count_ge 3 (all_totals t) = 7%nat /\
+  ca_vals (push_all [5; 0; 7; 7; 1; 9] (ca_new 3)) = [7; 7; 9].
+Proof. vm_compute. repeat split. Qed.
+
 (* For ANY cap: what both decoders return is retotal (prune th t) with th = the threshold of minval.go — a pruned
    copy.  The dictionary form is decoded with the dictionary as it is after any later history of puts and
    save/reload events (this is where C12 is used).  Every stack of the decoded tree is a stack of t with the same
